@@ -84,6 +84,30 @@ int main(int argc, char** argv) {
         }
       }
     }
+    // the same with a history: two zones share one processor (and a manager with one slot serves two zones); the zoned
+    // date-time of the first is printed only after the second has used the processor
+    for (int pass = 0; pass < 2; pass++) {
+      int nz = pass ? zonedbx::kZoneRegistrySize : zonedb::kZoneRegistrySize;
+      BasicZoneManager<1> bm(zonedb::kZoneRegistrySize, zonedb::kZoneRegistry);
+      ExtendedZoneManager<1> xm(zonedbx::kZoneRegistrySize, zonedbx::kZoneRegistry);
+      for (int i = 0; i + 1 < nz; i += 2) for (int via = 0; via < 2; via++) {
+        TimeZone a = via ? (pass ? xm.createForZoneIndex((uint16_t) i) : bm.createForZoneIndex((uint16_t) i))
+                         : (pass ? TimeZone::forZoneInfo(zonedbx::kZoneRegistry[i], &xp) : TimeZone::forZoneInfo(zonedb::kZoneRegistry[i], &bp));
+        TimeZone b2 = via ? (pass ? xm.createForZoneIndex((uint16_t) (i + 1)) : bm.createForZoneIndex((uint16_t) (i + 1)))
+                          : (pass ? TimeZone::forZoneInfo(zonedbx::kZoneRegistry[i + 1], &xp) : TimeZone::forZoneInfo(zonedb::kZoneRegistry[i + 1], &bp));
+        const char* name = pass ? (const char*) ExtendedZone(zonedbx::kZoneRegistry[i]).name() : (const char*) BasicZone(zonedb::kZoneRegistry[i]).name();
+        long t = 615000000;
+        ZonedDateTime za = ZonedDateTime::forEpochSeconds((acetime_t) t, a);
+        ZonedDateTime zb = ZonedDateTime::forEpochSeconds((acetime_t) t, b2);      // the shared processor now serves the other zone
+        n++;
+        if (za.isError() || zb.isError()) { fail("zoned date-time is error (shared processor)", name, t, i); continue; }
+        std::string zt = pr(za);
+        std::string want = pr(OffsetDateTime::forLocalDateTimeAndOffset(za.localDateTime(), za.timeOffset())) + "[" + name + "]";
+        if (zt != want) fail("ZonedDateTime printed after another zone used its processor", zt, t, i);
+        ZonedDateTime back = ZonedDateTime::forDateString(zt.c_str());
+        if (back.isError() || (long) back.toEpochSeconds() != t) fail("ZonedDateTime parse(print) after another zone used its processor", zt, t, i);
+      }
+    }
     // manual zones print their offsets
     if (pr(TimeZone::forUtc()) != "UTC") fail("UTC zone name", pr(TimeZone::forUtc()), 0, 0);
     // error values print their documented placeholders
